@@ -160,8 +160,9 @@ def impl_trees(bs, t1, t2, d):
             for f_ in fs_:
                 os.utime(os.path.join(r_, f_), ns=(1_600_000_000_000_000_000, 1_600_000_000_000_000_000))
     old1, old2 = m.diff_bytes_files.__defaults__, m.diff_count_files.__defaults__
-    m.diff_bytes_files.__defaults__ = (bs, 0, 0)
-    m.diff_count_files.__defaults__ = (bs, 0, 0)
+    # only the chunk size is overridden: the other defaults (start offsets) stay what the code says
+    m.diff_bytes_files.__defaults__ = (bs,) + tuple(old1[1:])
+    m.diff_count_files.__defaults__ = (bs,) + tuple(old2[1:])
     try:
         try:
             r = m.diff_bytes_dir(d1, d2)
